@@ -1,7 +1,7 @@
 (* C02 — every request gets exactly one outcome; 404/405/415/406 are exact. *)
 From Model Require Import Str Sexp Http Template Table Curly DetectRoute Jsr311 Router.
 From Spec Require Import RouteSpec.
-From Proofs Require Import OutcomeProofs.
+From Proofs Require Import OutcomeProofs JsrProofs.
 
 (* CurlyRouter.  For every regex oracle, table and request such that the routes
    of the service the URL belongs to use the documented template forms:
@@ -33,6 +33,15 @@ Definition C02_detect_statement : Prop :=
 Theorem C02_detect : C02_detect_statement.
 Proof. exact (conj detect_route_meets spec_cascade_perm). Qed.
 Print Assumptions C02_detect.
+
+(* RouterJSR311: a selected route can always be given its parameters (the nil-slice index of ExtractParameters is
+   unreachable): routing never panics under the second router either. *)
+Definition C02_jsr_no_panic_statement : Prop :=
+  forall (O : oracles) (t : table) (req : request) (w : service) (r : route),
+    t_router t = Jsr311 -> select_route O t req = inl (w, r) -> route_request O t req <> RPanic.
+Theorem C02_jsr_no_panic : C02_jsr_no_panic_statement.
+Proof. exact jsr_selected_never_panics. Qed.
+Print Assumptions C02_jsr_no_panic.
 
 Example C02_example :
   let O := {| o_lower := lower_ascii; o_rx := fun _ _ => true; o_rxfull := fun _ _ => false |} in
